@@ -565,7 +565,7 @@ def run(repo: Path, out: Path) -> dict:
         err = f"unsupported: {e}"
     except Exception as e:  # noqa: BLE001
         err = f"{type(e).__name__}: {e}"
-    body = HEADER + "import GeffModel.PyInt\nnamespace Gen.MockEdges\n"
+    body = "import GeffModel.PyInt\n" + HEADER + "set_option linter.unusedVariables false\nnamespace Gen.MockEdges\n"
     body += f"def translationOk : Bool := {'true' if err is None else 'false'}\n"
     if err is None:
         body += f"/-- {SRC}:{info['lines'][0]}-{info['lines'][1] - 1} (`{FUNC}`), result variable `{info['result']}` -/\n"
